@@ -678,6 +678,7 @@ def fam_sub(case):
              ["thr", M.f32(offs[len(offs) // 2])], ["nl", nl]]
     names = {"thr": "set_threshold", "dens": "set_link_density",
              "nl": "set_non_local"}
+    nl_now = nl
     for op in chain:
         mdl.apply(op)
         try:
@@ -695,6 +696,30 @@ def fam_sub(case):
         if A is None:
             break
         sig.append(_bits(A))
+        if op[0] == "nl":
+            nl_now = op[1]
+        if sup:
+            # the orientation rule of the directed Hilbert network is not
+            # part of the reference model: after every setter the network
+            # must be the one a FRESH object with the same threshold and
+            # non_local setting is (the subclass overrides set_threshold)
+            try:
+                twin = _build_sub(cls, ds, {"threshold": float(
+                    net.threshold())}, nl_now, winter)
+                At = np.asarray(twin.adjacency)
+                ev += 1
+                if At.shape != np.asarray(A).shape or \
+                        not np.array_equal(At, np.asarray(A)):
+                    viol.append(V(
+                        "%s.%s:differs-from-fresh-object" % (
+                            cname, names[op[0]]),
+                        "after %r the adjacency is not that of a newly "
+                        "built network with threshold %r, non_local=%s" % (
+                            op, float(net.threshold()), nl_now),
+                        np.asarray(A), At))
+                    break
+            except Exception:   # noqa
+                pass
     if ds == "c" and cls in ("Tsonis", "Spearman", "PartialCorrelation",
                              "MutualInfo"):
         # regenerate from the other season selection: same threshold, new
